@@ -75,7 +75,7 @@ def _verify_one(args):
     if c is None: return dict(error='no contract registered for %s::%s' % (file, qual))
     try:
         fi = extract.get_func(file, qual)
-        ex = symexec.verify(prop, c, track_raises=opts.get('track_raises', c.on_raise is not None))
+        ex = symexec.verify(prop, c, track_raises=opts.get('track_raises', c.on_raise is not None or c.raises_when is not None))
         solve.discharge_all(ex.obls, both=both, jobs=2)
     except Exception as e:
         return dict(error='%s::%s: %s: %s' % (file, qual, type(e).__name__, str(e)[:300]))
@@ -97,7 +97,7 @@ def _mutant_one(args):
         rec['status'] = 'skipped: ' + str(e); return rec
     try:
         c = REG.get(file, qual)
-        ex = symexec.verify(prop, c, track_raises=(c.on_raise is not None), fi=fi)
+        ex = symexec.verify(prop, c, track_raises=(c.on_raise is not None or c.raises_when is not None), fi=fi)
         # the obligations named by `expect` first; stop at the first one that no longer discharges
         order = sorted(ex.obls, key=lambda o: 0 if expect in o.name else 1)
         rec['status'] = 'SURVIVED'; rec['failed'] = []
@@ -126,7 +126,7 @@ def _module_mutant_one(args):
                 if e[0] != relpath: continue
                 c = REG.get(e[0], e[1])
                 if expect not in '%s/%s::%s/' % (prop, os.path.basename(e[0]), e[1]) and expect.split('/')[0] not in e[1]: continue
-                ex = symexec.verify(prop, c, track_raises=(c.on_raise is not None), fi=extract.get_func(e[0], e[1]))
+                ex = symexec.verify(prop, c, track_raises=(c.on_raise is not None or c.raises_when is not None), fi=extract.get_func(e[0], e[1]))
                 obls = obls + ex.obls
             cand = [o for o in obls if expect in o.name]
             for o in cand:
